@@ -32,7 +32,13 @@ class Sym:
 def opt_rope_text(v):
     if v.disc == 0: return None
     r = v.payload[1].f[0]
+    if is_real_rope(r): return as_text(r)
     return r.flat() if isinstance(r, RopeV) else r
+
+
+def is_real_rope(x):
+    x = sv(x)
+    return isinstance(x, Agg) and len(x.f) == 1 and isinstance(sv(x.f[0]), Enum) and sv(x.f[0]).ty == 'Repr'
 
 
 def recorder():
@@ -347,6 +353,18 @@ def as_text(x):
     if isinstance(x, tuple) and x and x[0] == 'ref': x = x[1]
     x = sv(x)
     if isinstance(x, RopeV): return x.flat()
+    if is_real_rope(x):
+        # a real rope.rs value (rope='real'): its flat bytes read off the representation
+        rp = sv(x.f[0])
+        pl = rp.payload[rp.disc].f[0]
+        if isinstance(sv(pl), StrV): return sv(pl)
+        inner = sv(pl)
+        while isinstance(inner, Ref) or (isinstance(inner, tuple) and inner and inner[0] == 'ref'): inner = sv(inner[1] if isinstance(inner, tuple) else deref(inner))
+        bs = []
+        for e in inner.f:
+            e = sv(e)
+            bs.extend(sv(e.f[0] if not (isinstance(e.f[0], tuple) and e.f[0][0] == 'ref') else e.f[0][1]).bytes())
+        return StrV(tuple(bs))
     return as_str(x)
 
 
@@ -465,6 +483,7 @@ def to_obs(m, s, mdl, raw, idx):
             x = sv(val)
             if isinstance(x, Enum): x = sv(x.payload[disc_int(x)].f[0])
             if isinstance(x, RopeV): x = x.flat()
+            if is_real_rope(x): x = as_text(x)
             if isinstance(x, Agg): x = StrV(tuple(b.e for b in x.f))
             obs.setdefault('views', {})[w] = det_text(m, s, mdl, x)
             if w == 'buffer': obs['views']['buffer_bytes'] = [det_int(m, s, mdl, b) if not isinstance(b, int) else b for b in x.bytes()]
@@ -569,8 +588,9 @@ def finish(m, J, s, raw, spec, props, mf, depth=0, subs_raw=None, alt=None):
     if len(J.samples) < 2: J.samples.append({'tree': obs['tree'], 'source': obs['source'], 'maps': obs['maps']})
 
 
-def tree_job(jid, tree, props=None, what=('source', 'rope', 'buffer', 'size', 'writer', 'c1f0', 'c0f0', 'c1f1', 'c0f1', 'map1', 'map0'), alphabet='q', flavour='mir', witnesses=(), subs=True, alt=None, history=(), history_slots=0, history_ops=('map1', 'map0', 'c1f0', 'c0f0', 'source', 'hash', 'clone'), alt_prop='C13'):
-    idx = api.load(flavour); m = api.machine(idx, loop_bound=64); J = Job(jid, m); J.alt_prop = alt_prop
+def tree_job(jid, tree, props=None, what=('source', 'rope', 'buffer', 'size', 'writer', 'c1f0', 'c0f0', 'c1f1', 'c0f1', 'map1', 'map0'), alphabet='q', flavour='mir', witnesses=(), subs=True, alt=None, history=(), history_slots=0, history_ops=('map1', 'map0', 'c1f0', 'c0f0', 'source', 'hash', 'clone'), alt_prop='C13', rope=None):
+    # rope='real': rope.rs is interpreted from its MIR as well (no Rope contract) - slower, used for the replay paths that measure ropes
+    idx = api.load(flavour); m = api.machine(idx, loop_bound=64, rope=rope); J = Job(jid, m); J.alt_prop = alt_prop
     st = State()
     sym = Sym(st, ALPHA[alphabet])
     root, spec = build(idx, sym, tree, m)
@@ -673,7 +693,7 @@ def tv_trees(jid, n=40, seed=0):
         if ascii_boundaries_ok(t): trees.append(t)
     with tempfile.NamedTemporaryFile('w', suffix='.json', delete=False) as f:
         json.dump({'family': 'batch', 'items': [{'family': 'tree', 'tree': t, 'what': what} for t in trees]}, f); path = f.name
-    binp = os.path.join(api.VERIF, '.cache', 'replay-target-debug', 'debug', 'verif_replay')
+    binp = os.environ.get('VERIF_REPLAY_DEBUG') or os.path.join(api.VERIF, '.cache', 'replay-target-debug', 'debug', 'verif_replay')
     r = subprocess.run([binp, path], capture_output=True, text=True, timeout=300)
     os.unlink(path)
     native = json.loads(r.stdout.strip().split('\n')[-1])['results']
